@@ -370,6 +370,17 @@ def finish(prop, tier, seed, result, level, rule, t0, assumptions, min_judged=1,
     return code
 
 
+def corpus_codes(max_len=None):
+    """The real deployed bytecodes extracted from the repository's tests: list of (name, bytes)."""
+    import glob
+    out = []
+    for p in sorted(glob.glob(os.path.join(VERIF, "corpus", "*.hex"))):
+        code = bytes.fromhex(open(p).read().strip())
+        if max_len is None or len(code) <= max_len:
+            out.append((os.path.basename(p)[:-4], code))
+    return out
+
+
 class Rng(random.Random):
     pass
 
